@@ -79,6 +79,9 @@ func c08Jobs(tier string) []Job {
 	// a single depositor holding the whole 256-bit supply: amount = limit = 2^256-1
 	add(c08Config{Limit: max256.String(), MaxBody: 8000, Denom: "uusdc", Whale: true})
 	add(c08Config{Limit: "", MaxBody: 132, Denom: "uusdc", Whale: true})
+	// a maximum body size of zero (its stored encoding is empty): the 132-byte burn body never fits
+	add(c08Config{Limit: "", MaxBody: 0, Denom: "uusdc"})
+	add(c08Config{Limit: "1000", MaxBody: 0, Denom: "uUSDC", BurnEnv: 1})
 	return jobs
 }
 
@@ -156,12 +159,12 @@ func c08Run(r *Run, c c08Config) {
 		amts = append(amts, intFromBig(bigPow2(64)), intFromBig(max256))
 	}
 	tokens := []string{c.Denom, mixCase(c.Denom, 0), "uatom"}
-	recips := [][]byte{distinct32(0x24), make([]byte, 32), nil, distinct32(0x24)[:31]}
+	recips := [][]byte{distinct32(0x24), make([]byte, 32), nil, distinct32(0x24)[:31], append(distinct32(0x24), 1), make([]byte, 33), append(make([]byte, 32), distinct32(0x24)...)} // too long: 33 bytes, 33 zero bytes, 32 zero bytes followed by 32 more
 	callers := [][]byte{distinct32(0x25), make([]byte, 32), {}, distinct32(0x25)[:20], append(distinct32(0x25), 1)}
 	depositors := []Account{UserA, UserB}
 	if thorough {
 		tokens = append(tokens, "")
-		recips = append(recips, []byte{}, append(distinct32(0x24), 1))
+		recips = append(recips, []byte{})
 		callers = append(callers, distinct32(0x25)[:31], append(distinct32(0x25), distinct32(0x26)...))
 		depositors = append(depositors, Outsider)
 	}
